@@ -2,7 +2,7 @@
 import threading
 
 
-def swarm(rng, racy=0.3, line=0.25, strategies=('random', 'random', 'weighted', 'weighted', 'sticky', 'pct'), **extra):
+def swarm(rng, racy=0.3, line=0.25, strategies=('random', 'random', 'weighted', 'weighted', 'sticky', 'pct'), starve=0.0, **extra):
     """Per-run simulator configuration ("swarm": vary everything per run)."""
     strat = rng.choice(strategies)
     cfg = {'strategy': strat}
@@ -21,6 +21,8 @@ def swarm(rng, racy=0.3, line=0.25, strategies=('random', 'random', 'weighted', 
         cfg['time_mode'] = 'exact'
     if rng.random() < line:
         cfg['line_p'] = rng.choice([0.02, 0.05, 0.15])
+    if rng.random() < starve:
+        cfg['p_starve'] = rng.choice([0.002, 0.01, 0.03])
     cfg.update(extra)
     return cfg
 
